@@ -1,10 +1,11 @@
 #!/usr/bin/env python3
 """C09: reported statistics are consistent with the adjustment they describe.
 
-Engine netmc: the real `gama-local` executable on every network of five
+Engine netmc: the real `gama-local` executable on every network of seven
 templates (2-D with fixed datum, the same with 0.01 mm / 0.1 cc precision, free
-2-D with constrained points, levelling, 3-D; all standard deviations inside a
-cluster differ).  For each template the lattice of observation subsets is
+2-D with constrained points, levelling, 3-D, distances along the axes, observed
+coordinates with diagonal / full covariance blocks; all standard deviations
+inside a cluster differ).  For each template the lattice of observation subsets is
 walked DOWN from the full network (transition = remove one observation) while
 the network stays determined, every +-sigma sign pattern of the noisy
 observations present is enumerated, and every input is run under the full
@@ -19,7 +20,7 @@ import concurrent.futures as cf
 import vlib, gnet
 import n09_net as N
 
-TEMPLATES = ["T2", "T2F", "T1", "T3", "T2H", "T2X"]
+TEMPLATES = ["T2", "T2F", "T1", "T3", "T2H", "T2X", "T2C"]
 HALF_ALWAYS = {"T2H"}        # high-precision copy of T2: mirror-half of the sign patterns in both tiers (budget)
 
 # quick: a sub-product that is complete within itself: only the sign patterns whose first noisy sign is '+'
@@ -174,7 +175,7 @@ def edge_relation(T, i, signs, par, pe, ce, mx=None):
     dim = o.dim()
     if ce["eq"] != pe["eq"] - dim:
         out.append(("counts", "removing %s: parent equations %d child %d, dimension of the observation %d" % (cand["name"], pe["eq"], ce["eq"], dim)))
-    if o.kind == "vec": return out
+    if o.kind in ("vec", "coord"): return out      # several rows leave at once: only the count relation
     net1 = N.build_net(T, (i,), {i: signs.get(i, 1)}, par)
     row = N.scalar_rows(net1)[0]
     key = "|".join(map(str, row["key"]))
@@ -375,7 +376,11 @@ def main():
     if S["half"]:
         prod += " (quick sub-product: of the sign patterns only those whose first noisy sign is '+', the other half being the mirror image s -> -s; envelope and gso are the two branches of LocalNetwork::vyrovnani_)"
     ck.finish(
-        "six templates (T2X: one new point observed by five distances along the coordinate axes only - exactly uncorrelated x, y with q_yy > q_xx and q_xx > q_yy sub-networks; T2H: T2 with 0.004-0.016 mm / 0.07-0.15 cc standard deviations, mirror-half of the sign patterns; T2: 3 fixed + 2 new points on {0,100,200}^2, 3 directions + 3 distances + 1 angle; T2F: the same 5 points as a free network, A B C constrained, 3 more distances, defect 3; "
+        "seven templates (T2C: observed coordinates - fixed A + 3 new points G1 (100,100), G2 (300,100), G3 (200,200); <coordinates> session 1 {G1 sigma 3/8 mm, G2 7/4} and "
+        "session 2 {G1 4/10, G2 6/5, G3 9/6.5} with diagonal cov-mat, a third cluster {G3 25 12 / 36 mm^2, full 2x2 block}, distances A-G3 and G1-G2; G1, G2 hang on observed coordinates "
+        "with exactly zero xy covariance (sigma_x < sigma_y: bearing 100 gon, sigma_x > sigma_y: bearing 0) and on a distance whose bearing at the linearisation point is exactly 0 when "
+        "the y errors have equal signs, every point is observed twice in the full network, 108 determined subsets with dof 0 .. 8; the <coordinate-x|y> rows of a diagonal block are "
+        "uncorrelated observations with sigma = sqrt(variance) and go through every per-observation clause; T2X: one new point observed by five distances along the coordinate axes only - x, y uncorrelated up to rounding (c_xy ~ 1e-15, sin(pi) is not 0) with q_yy > q_xx and q_xx > q_yy sub-networks; T2H: T2 with 0.004-0.016 mm / 0.07-0.15 cc standard deviations, mirror-half of the sign patterns; T2: 3 fixed + 2 new points on {0,100,200}^2, 3 directions + 3 distances + 1 angle; T2F: the same 5 points as a free network, A B C constrained, 3 more distances, defect 3; "
         "T1: levelling 2 fixed + 3 new heights, 6 height differences; "
         "T3: 3-D 3 fixed + 2 new points, slope distances, zenith angles, a height difference and a vector with full 3x3 cov-mat, no instrument heights); for each template the lattice of "
         "observation subsets reachable from the full network by removing one observation at a time while the reference model keeps it determined (all such subsets, dof from the top value down to 0), "
@@ -390,7 +395,8 @@ def main():
         assumptions=["sight lengths 100-283 m, noise +-1 sigma (2-15 mm / cc): linearisation effects are second order; tolerances = printed precision of each field (+ 1e-6 relative; Student 5e-4, chi-square 5e-3 as C17 allows)",
                      "reference quantiles: own bisection on erfc / incomplete beta / incomplete gamma (agreement with scipy.stats < 1e-12 measured once)",
                      "confidence ellipse a', b' in the text output are checked against the 2-D coefficient (sqrt(chi2_2) or sqrt(2F_2,dof)) that makes the coverage probability equal conf-pr, as the manual's defining sentence says; the manual's formula a' = k_p a with the 1-D k_p disagrees with that sentence",
-                     "statistics of observations in correlated clusters (the vector) are not checked except through [pvv], dof and the cov-mat of the unknowns (the property restricts the residual-cofactor relation to uncorrelated observations)"])
+                     "statistics of observations in correlated clusters (the vector of T3, the G3 block of T2C) are not checked except through [pvv], dof, the cov-mat of the unknowns and stdev = m0 sqrt(a Q a') (the property restricts the residual-cofactor relation to uncorrelated observations); a member of a <coordinates> cluster whose covariance with every other active member is exactly 0 counts as uncorrelated",
+                     "lattice transitions that remove an observation of dimension > 1 (vector, observed xy coordinates) are checked for the equation count only"])
 
 
 if __name__ == "__main__":
